@@ -45,6 +45,12 @@ def specs():
     S.append(["Not", "not", ["Term", "f", [["Term", "a"]]]])
     S.append(["list", [["Not", "\\+", ["Term", "a"]], ["Term", "b"]]])
     S.append(["list", [["Not", "not", ["Term", "a"]], ["Term", "b"]]])
+    # floats that differ only beyond the precision ProbLog keeps (Constant rounds to 15 decimals): constructor, parser, nested
+    for v in (0.1 + 0.2, 0.3, 1.1 * 3, 3.3, 4.35 * 100, 435.0, 1e-17, 0.0):
+        S.append(["Constant", v])
+        S.append(["Term", "f", [["Constant", v]]])
+    for t in ("0.3", "0.30000000000000004", "f(0.3)", "f(0.30000000000000004)", "3.3", "3.3000000000000003", "[0.3]", "[0.30000000000000004]"):
+        S.append(["parse", t])
     return S
 
 
